@@ -2,6 +2,7 @@ import Dbus.Basic
 import Dbus.Model.Syntax
 import Dbus.Model.Utf8
 import Dbus.Model.Signature
+import Driver.Tree
 /-
   Line-protocol driver over Dbus.Model (compiled; imports no proofs and no Mathlib).
 
@@ -32,11 +33,15 @@ structure Stats where
   known : Nat := 0
   bad : Nat := 0
   nontrivial : Nat := 0
+  tree : TreeState := {}
 
 def handle (st : Stats) (line : String) : Stats × Option String :=
   let toks := (line.trimAscii.toString.splitOn " ").filter (· ≠ "")
   let st := { st with lines := st.lines + 1 }
   match toks with
+  | "tree" :: rest =>
+    let (t, ans) := treeCmd st.tree rest
+    ({ st with tree := t, bad := if ans = "bad-op" then st.bad + 1 else st.bad }, some ans)
   | ["syn", hex] =>
     match ofHex hex with
     | some s => (st, some s!"{synModel s} {synSpec s}")
